@@ -226,10 +226,25 @@ pub fn sqrt(x: f32) -> f32 {
     })
 }
 
-/// atan2: functional (two-argument memo), NaN propagation, range
+/// atan2: functional (two-argument memo), NaN propagation, range by
+/// quadrant, exact values on the axes, and *dominance* inside each closed
+/// quadrant (atan2 is monotone in each argument there):
+///   Q1 (y>=0,x>=0): increasing in y, decreasing in x
+///   Q2 (y>=0,x<=0): decreasing in y, decreasing in x
+///   Q3 (y<=0,x<=0): decreasing in y, increasing in x
+///   Q4 (y<=0,x>=0): increasing in y, increasing in x
+/// The sign of a zero `y` decides the side of the branch cut.
 static mut ATAN2_N: usize = 0;
 static mut ATAN2_K: [(u32, u32); CAP] = [(0, 0); CAP];
 static mut ATAN2_V: [f32; CAP] = [0.0; CAP];
+
+fn quad(y: f32, x: f32) -> (bool, bool, bool, bool) {
+    let up = !y.is_sign_negative();
+    let right = x >= 0.0;
+    let left = x <= 0.0;
+    (up && right, up && left, !up && left, !up && right)
+}
+
 pub fn atan2(y: f32, x: f32) -> f32 {
     unsafe {
         let mut i = 0;
@@ -244,6 +259,60 @@ pub fn atan2(y: f32, x: f32) -> f32 {
         } else {
             let r = any_f32();
             kani::assume(r >= -PI && r <= PI);
+            // half planes
+            if !y.is_sign_negative() {
+                kani::assume(r >= 0.0);
+            } else {
+                kani::assume(r <= 0.0);
+            }
+            if x > 0.0 {
+                kani::assume(r >= -FRAC_PI_2 && r <= FRAC_PI_2);
+            } else if x < 0.0 {
+                kani::assume(r >= FRAC_PI_2 || r <= -FRAC_PI_2);
+            }
+            // axes
+            if y == 0.0 && x > 0.0 {
+                kani::assume(r == 0.0);
+            }
+            if y == 0.0 && x < 0.0 {
+                kani::assume(if y.is_sign_negative() { r == -PI } else { r == PI });
+            }
+            if x == 0.0 && y > 0.0 {
+                kani::assume(r == FRAC_PI_2);
+            }
+            if x == 0.0 && y < 0.0 {
+                kani::assume(r == -FRAC_PI_2);
+            }
+            // dominance against earlier evaluations in the same closed quadrant
+            let (q1, q2, q3, q4) = quad(y, x);
+            let mut i = 0;
+            while i < CAP {
+                if i < ATAN2_N {
+                    let (yb, xb) = ATAN2_K[i];
+                    let (y2, x2) = (f32::from_bits(yb), f32::from_bits(xb));
+                    let r2 = ATAN2_V[i];
+                    if !r2.is_nan() {
+                        let (p1, p2, p3, p4) = quad(y2, x2);
+                        if q1 && p1 {
+                            if y2 <= y && x2 >= x { kani::assume(r2 <= r); }
+                            if y2 >= y && x2 <= x { kani::assume(r2 >= r); }
+                        }
+                        if q2 && p2 {
+                            if y2 >= y && x2 >= x { kani::assume(r2 <= r); }
+                            if y2 <= y && x2 <= x { kani::assume(r2 >= r); }
+                        }
+                        if q3 && p3 {
+                            if y2 >= y && x2 <= x { kani::assume(r2 <= r); }
+                            if y2 <= y && x2 >= x { kani::assume(r2 >= r); }
+                        }
+                        if q4 && p4 {
+                            if y2 <= y && x2 <= x { kani::assume(r2 <= r); }
+                            if y2 >= y && x2 >= x { kani::assume(r2 >= r); }
+                        }
+                    }
+                }
+                i += 1;
+            }
             r
         };
         assert!(ATAN2_N < CAP, "stub memo table overflow");
